@@ -69,16 +69,25 @@ def run(ctx: Context) -> None:
         flow = ctx.flow(fi)
         boxes = [c for c in calls_in(fi) if (callee(ctx, fi, c) or '').endswith('shapely.geometry.box')]
         ok = False
+        from .common import facts as _facts20
         for b in boxes:
+            v = None
             if len(b.args) == 1 and isinstance(b.args[0], ast.Starred):
                 v = flow.resolve(b.args[0].value)
-                if isinstance(v, ast.Call) and dotted(v.func) == 'map' and len(v.args) == 2 and dotted(v.args[0]) == 'float':
-                    g = flow.resolve(v.args[1])
-                    if isinstance(g, ast.Call) and isinstance(g.func, ast.Attribute) and g.func.attr == 'groups' and not g.args:
-                        m = flow.resolve(g.func.value)
-                        ok = any(m is u for f2, u in uses if f2 is fi)
-                        tests = [(norm_text(st.test), inb) for st, inb in enclosing_ifs(fi, b)]
-                        ok = ok and any(inb and t.endswith('is not None') for t, inb in tests)
+            elif len(b.args) == 4 and all(isinstance(a, ast.Name) for a in b.args) and not b.keywords:
+                # the four numbers by name: unpacked from the same map(float, groups), passed on in that order
+                order = [a.id for a in b.args]
+                unpack = [st for st in walk_no_nested(fi.node) if isinstance(st, ast.Assign) and len(st.targets) == 1 and isinstance(st.targets[0], ast.Tuple)
+                          and [norm_text(e) for e in st.targets[0].elts] == order]
+                stores = [n for n in ast.walk(fi.node) if isinstance(n, ast.Name) and isinstance(n.ctx, ast.Store) and n.id in order]
+                if len(unpack) == 1 and len(stores) == 4 and len(set(order)) == 4:
+                    v = flow.resolve(unpack[0].value)
+            if isinstance(v, ast.Call) and dotted(v.func) == 'map' and len(v.args) == 2 and dotted(v.args[0]) == 'float':
+                g = flow.resolve(v.args[1])
+                if isinstance(g, ast.Call) and isinstance(g.func, ast.Attribute) and g.func.attr == 'groups' and not g.args:
+                    m = flow.resolve(g.func.value)
+                    ok = any(m is u for f2, u in uses if f2 is fi)
+                    ok = ok and any(t.endswith(' is None') and not pol for t, pol in _facts20(ctx, fi, b, expand=False))
         ctx.check('R20.1', ok, "on a match, all four groups become box(*map(float, groups)) in order", fi, boxes[0] if boxes else fi.node,
                   construct=f"{fi.short}: " + (norm_text(boxes[0]) if boxes else 'no box() call'))
 
@@ -155,8 +164,8 @@ def run(ctx: Context) -> None:
         for c in shapes:
             a = flow.resolve(c.args[0]) if c.args else None
             if isinstance(a, ast.Call) and callee(ctx, ga, a) == 'json.load':
-                tests = [(norm_text(st.test), inb) for st, inb in enclosing_ifs(ga, c)]
-                suffix = any(inb and 'suffix' in t and '.geojson' in t and '.json' in t for t, inb in tests)
+                from .common import facts as _facts20b
+                suffix = any(inb and 'suffix in' in t and "'.geojson'" in t and "'.json'" in t for t, inb in _facts20b(ctx, ga, c))
                 ok_file = suffix
         nx = [n for n in walk_no_nested(ga.node) if isinstance(n, ast.If) and norm_text(n.test).startswith('not ') and 'exists()' in norm_text(n.test)
               and any(isinstance(s, ast.Raise) for s in n.body)]
@@ -349,6 +358,16 @@ def run(ctx: Context) -> None:
             from_written = flow.reaches(tv, lambda n: isinstance(n, ast.Attribute) and n.attr == 'time_coordinate' and isinstance(n.value, ast.Attribute)
                                         and n.value.attr == 'ems' and flow.canon(n.value.value) == flow.canon(written))
             dominated = bool(guards_) and ctx.cfg(ep).dominates(guards_[0], stmt_of(ep, wr[0])) and stmt_of(ep, wr[0]).lineno > guards_[0].lineno
+            # or: every value the name can hold at the write is None, or was assigned under a membership test of that very value
+            from .common import facts as _facts20c
+            defs_ = flow.defs_of(tv) if isinstance(tv, ast.Name) else []
+            wtext = norm_text(written)
+            tested = bool(defs_) and all(
+                d.kind == 'assign' and d.value is not None and d.stmt is not None and (is_none(d.value) or any(
+                    pol and t in (f"{norm_text(d.value)} in {wtext}.{holder}" for holder in ('variables', 'coords', 'data_vars')) or (pol and t == f"{norm_text(d.value)} in {wtext}")
+                    for t, pol in _facts20c(ctx, ep, d.stmt, expand=False)))
+                for d in defs_)
+            dominated = dominated or tested
             ok_tv = from_written or dominated
             detail = 'taken from the written dataset itself' if from_written else ('guarded by a membership test on the written dataset' if dominated else
                                                                                f"{norm_text(tv)} comes from the input dataset and is not checked against the extracted one")
